@@ -240,10 +240,11 @@ package cbcmac
 //@   assert before call block#3: forall j :: 0 <= j && j < bs ==> d.tag[j] == CBC(K, ZEROARR(), M2, 0, bs, (L + PL - len(p)) / bs)[j]
 //@   assert before call block#3: bs * ((L + PL - len(p)) / bs) == L + PL - len(p) && bs * (n / bs) == n
 //@   assert before call block#3: forall j :: 0 <= j && j < n ==> M2[L + PL - len(p) + j] == p[j]
-//@   assert before call block#3: forall j :: 0 <= j && j < bs * (n / bs) ==> M2[bs * ((L + PL - len(p)) / bs) + j] == p[j]
 //@   apply before call block#3: cbc_app16(K, arr(d.tag), ZEROARR(), M2, (L + PL - len(p)) / 16, arr(p), offof(p), n / 16)
 //@   apply before call block#3: cbc_app8(K, arr(d.tag), ZEROARR(), M2, (L + PL - len(p)) / 8, arr(p), offof(p), n / 8)
 //@   assert after call block#3: forall j :: 0 <= j && j < bs ==> d.tag[j] == CBC(K, ZEROARR(), M2, 0, bs, (L + PL - len(p)) / bs + n / bs)[j]
+//@   assert after call block#3: (L + PL - len(p) + n) % bs == 0
+//@   assert after call block#3: bs * ((L + PL - len(p) + n) / bs) == L + PL - len(p) + n
 //@   assert after call block#3: (L + PL - len(p)) / bs + n / bs == (L + PL - len(p) + n) / bs
 
 // MAC: the result is a function of the key material and src only (requires only the shape, i.e.
@@ -375,3 +376,25 @@ package cbcmac
 //@   loop 1 invariant !padded ==> forall j :: 0 <= j && j < bs ==> tag[j] == CBC(K, H0, SA, SO, bs, (offof(src) - offof(P)) / bs)[j]
 //@   loop 1 decreases len(src)
 //@   assert before call XORBytes#2: len(src) == bs && (offof(src) - offof(P)) / bs == len(P) / bs - 1 && offof(src) - offof(P) == len(P) - bs
+
+// ---- constructors: they establish what the MAC methods require
+//@ func NewCBCMACWithPadding property C19
+//@   config bs in 8,16
+//@   requires b != nil && BS(id(b)) == bs && newPaddingFunc != nil
+//@   fnspec newPaddingFunc: std:paddingCreator
+//@   panics iff size <= 0 || size > bs
+//@   ensures typeis(result, *cbcmac) && as(result, cbcmac).size == size && as(result, cbcmac).b == b
+//@   ensures as(result, cbcmac).pad != nil && PADBS(id(as(result, cbcmac).pad)) == bs
+//@   modifies nothing
+
+//@ func NewLMACWithPadding property C19
+//@   config bs in 8,16
+//@   requires FBS() == bs && creator != nil && newPaddingFunc != nil
+//@   fnspec creator: std:cipherCreator
+//@   fnspec newPaddingFunc: std:paddingCreator
+//@   maypanic
+//@   let K0 := CIPHID(arr(key), offof(key), len(key))
+//@   ensures typeis(result, *lmac) && as(result, lmac).size == size && 1 <= size && size <= bs
+//@   ensures as(result, lmac).b1 != nil && as(result, lmac).b2 != nil && as(result, lmac).pad != nil
+//@   ensures BS(id(as(result, lmac).b1)) == bs && BS(id(as(result, lmac).b2)) == bs && PADBS(id(as(result, lmac).pad)) == bs
+//@   modifies nothing
